@@ -27,6 +27,7 @@ type LoopSpec struct {
 type AssertAt struct {
 	Anchor string // e.g. "call (*Chain).Next#1", "store CacheEntry.ttl#1", "return#2"
 	Clause
+	Possible bool // "possible at <anchor>: expr": the point must stay REACHABLE with expr true (a cover; refuted => violation)
 }
 
 type Param struct{ Name, Type string }
@@ -108,7 +109,7 @@ func newContractSet() *ContractSet {
 }
 
 var blockKw = map[string]bool{"frame": true, "func": true, "spec": true, "pred": true, "lemma": true, "axiom": true, "atomic": true, "recspec": true, "uninterp": true}
-var clauseKw = map[string]bool{"requires": true, "ensures": true, "modifies": true, "loop": true, "assert": true,
+var clauseKw = map[string]bool{"requires": true, "ensures": true, "modifies": true, "loop": true, "assert": true, "possible": true,
 	"assume": true, "arith": true, "nopanic": true, "trusted": true, "abstract": true, "note": true, "nosafety": true, "params": true, "bounded": true, "opaque": true, "timeout": true, "uses": true}
 
 type rawLine struct {
@@ -330,7 +331,7 @@ func (cs *ContractSet) parseBlock(b []rawLine, file, pkg string) error {
 				case "unroll":
 					ls.Unroll, _ = strconv.Atoi(strings.TrimSpace(m[3]))
 				}
-			case "assert":
+			case "assert", "possible":
 				// assert at <anchor>: expr
 				if !strings.HasPrefix(arg, "at ") {
 					return fmt.Errorf("%s:%d: assert needs 'at <anchor>:'", file, l.line)
@@ -344,7 +345,7 @@ func (cs *ContractSet) parseBlock(b []rawLine, file, pkg string) error {
 				if err != nil {
 					return err
 				}
-				fc.Asserts = append(fc.Asserts, AssertAt{Anchor: strings.TrimSpace(a[:i]), Clause: c})
+				fc.Asserts = append(fc.Asserts, AssertAt{Anchor: strings.TrimSpace(a[:i]), Clause: c, Possible: w == "possible"})
 			case "assume":
 				if !strings.HasPrefix(arg, "at ") {
 					return fmt.Errorf("%s:%d: assume needs 'at <anchor>:'", file, l.line)
